@@ -80,7 +80,7 @@ def run(tier):
     recs = []
     try:
         jobs = [(drv, texel, os.path.join(d, "n%d" % i), sd * 100003 + i, "normal", "") for i in range(n)]
-        jobs += [(drv, texel, os.path.join(d, "b%d" % i), sd * 100003 + 7000 + i, "badtms", "") for i in range(12 if tier == "quick" else 48)]
+        jobs += [(drv, texel, os.path.join(d, "b%d" % i), (sd * 100003 + 7000) // 32 * 32 + i, "badtms", "") for i in range(12 if tier == "quick" else 48)]
         # path vectors from TLC: spread deterministically over the 2028 safe paths
         step = max(1, len(pv.vecs) // npaths)
         pvecs = pv.vecs[(sd % step)::step][:npaths]
